@@ -8,6 +8,8 @@ import (
 	"flag"
 	"fmt"
 	"hash/fnv"
+	"net"
+	"net/http"
 	"os"
 	"os/exec"
 	"path/filepath"
@@ -43,6 +45,7 @@ type c09Case struct {
 	Profile string   `json:"profile,omitempty"` // hex of the serialized (uncompressed) profile
 	Bases   []string `json:"bases,omitempty"`   // hex of base profiles: passed as -base / -diff_base sources
 	Diff    bool     `json:"diff_base,omitempty"`
+	Remote  bool     `json:"remote,omitempty"` // the profile is fetched from an http:// URL (served by the harness) instead of a file
 	Args    []string `json:"args_hex,omitempty"`
 	Env     []string `json:"env,omitempty"`
 	Lines   []string `json:"lines_hex,omitempty"` // interactive lines / web "path?query" / completer lines
@@ -83,6 +86,43 @@ type c09Env struct {
 
 var c09TheEnv *c09Env
 
+// c09Remote serves profiles over HTTP on 127.0.0.1 so that the real pprof fetches them as REMOTE
+// sources (only those are saved to PPROF_TMPDIR / $HOME/pprof and symbolized through symbolz).
+var c09Remote struct {
+	once sync.Once
+	base string
+	m    sync.Map // path -> []byte
+	n    int64
+	mu   sync.Mutex
+}
+
+func c09ServeProfile(pb []byte) (url string, release func()) {
+	c09Remote.once.Do(func() {
+		ln, err := net.Listen("tcp", "127.0.0.1:0")
+		if err != nil {
+			return
+		}
+		c09Remote.base = "http://" + ln.Addr().String()
+		go http.Serve(ln, http.HandlerFunc(func(w http.ResponseWriter, r *http.Request) {
+			if b, ok := c09Remote.m.Load(r.URL.Path); ok && r.Method == "GET" {
+				w.Header().Set("Content-Type", "application/octet-stream")
+				w.Write(b.([]byte))
+				return
+			}
+			http.Error(w, "not found", http.StatusNotFound)
+		}))
+	})
+	if c09Remote.base == "" {
+		return "", func() {}
+	}
+	c09Remote.mu.Lock()
+	c09Remote.n++
+	path := fmt.Sprintf("/debug/pprof/c09-%d", c09Remote.n)
+	c09Remote.mu.Unlock()
+	c09Remote.m.Store(path, pb)
+	return c09Remote.base + path, func() { c09Remote.m.Delete(path) }
+}
+
 // c09Setup creates the scratch directories once per process (the runner is invoked once per corpus
 // file and once for the generated cases).
 func c09Setup() *c09Env {
@@ -97,6 +137,7 @@ func c09Setup() *c09Env {
 		os.MkdirAll(filepath.Join(tmp, d), 0o755)
 	}
 	e := &c09Env{tmp: tmp}
+	os.WriteFile(filepath.Join(tmp, "afile"), []byte("not a directory\n"), 0o644)
 	e.env = []string{"HOME=" + filepath.Join(tmp, "home"), "PATH=" + filepath.Join(tmp, "emptybin"), "TMPDIR=" + filepath.Join(tmp, "t"),
 		"XDG_CONFIG_HOME=" + filepath.Join(tmp, "cfg"), "PPROF_TMPDIR=" + filepath.Join(tmp, "ptmp"), "TERM=dumb", "GOMEMLIMIT=2GiB"}
 	// the in-process runs see the same environment
@@ -164,7 +205,13 @@ func c09Exec(c *Ctx, e *c09Env, id int, cs *c09Case) *c09ProcResult {
 			args = append(args, "-base="+bf)
 		}
 	}
-	args = append(args, pf)
+	if u, release := c09ServeProfile(pb); cs.Remote && u != "" {
+		defer release()
+		args = append(args, u)
+	} else {
+		release()
+		args = append(args, pf)
+	}
 	res := &c09ProcResult{cs: cs}
 	var stdin bytes.Buffer
 	if cs.Kind == "script" {
@@ -1120,6 +1167,12 @@ func runC09(c *Ctx) {
 					if len(j.cs.Bases) > 0 {
 						kind += map[bool]string{true: "+diff_base", false: "+base"}[j.cs.Diff]
 					}
+					if j.cs.Remote {
+						kind += "+remote"
+					}
+					if j.i >= 3000000 {
+						kind = "grid"
+					}
 					v := verdict{kind: kind, cls: cls, key: fmt.Sprintf("%s %x", j.cs.Kind, h.Sum64())}
 					if c09Failing(cls) {
 						v.res = res
@@ -1133,12 +1186,24 @@ func runC09(c *Ctx) {
 		}
 		go func() {
 			defer close(work)
+			// deterministic grid first: every output command x every option that changes graph
+			// construction or trimming, on a profile where trimming really removes nodes
+			if want("grid") && nCLI > 0 {
+				for gi, cs := range c09GridCases() {
+					work <- job{3000000 + gi, cs}
+				}
+			}
 			for i := 0; i < nCLI+nScript; i++ {
 				fr := rCamp.Fork()
 				// separate streams: short build ids / int64-overflowing tag ranges / extreme line numbers
-				// only in every 8th case each
-				shortBID, big, xlines := i%8 == 3, i%8 == 5, i%8 == 6
+				// only in every 8th case each; every 8th case fetches its profile from an http URL
+				// (remote source: saved locally afterwards) with faults injected on the save path
+				shortBID, big, xlines, remote := i%8 == 3, i%8 == 5, i%8 == 6, i%8 == 0
 				p := c09Profile(fr, shortBID, xlines)
+				remoteText := ""
+				if remote {
+					remoteText = " remote[" + c09BadSaveNames(fr, p) + "]"
+				}
 				pb := c09ProfileBytes(p)
 				if pb == nil {
 					continue
@@ -1163,8 +1228,14 @@ func runC09(c *Ctx) {
 						baseText = " -base" + baseText
 					}
 				}
+				cs.Remote = remote
+				if remote {
+					if fe := c09SaveFaultEnv(fr, e); fe != nil {
+						cs.Env = append(cs.Env, fe...)
+					}
+				}
 				if fr.Chance(25) {
-					cs.Env = []string{"PPROF_BINARY_PATH=" + fr.Pick([]string{e.tmp + "/home", ":", "/nonexistent", e.tmp + "/home:" + e.tmp + "/cfg", "relative/dir", e.tmp + "/emptybin"})}
+					cs.Env = append(cs.Env, "PPROF_BINARY_PATH="+fr.Pick([]string{e.tmp + "/home", ":", "/nonexistent", e.tmp + "/home:" + e.tmp + "/cfg", "relative/dir", e.tmp + "/emptybin"}))
 				}
 				if i < nCLI {
 					cs.Kind = "cli"
@@ -1176,7 +1247,7 @@ func runC09(c *Ctx) {
 						}
 					}
 					cs.Args = hexAll(args)
-					cs.Text = fmt.Sprintf("pprof %q%s <profile %s> env=%q", args, baseText, describe(p), cs.Env)
+					cs.Text = fmt.Sprintf("pprof %q%s%s <profile %s> env=%q", args, baseText, remoteText, describe(p), cs.Env)
 				} else {
 					cs.Kind = "script"
 					var lines []string
@@ -1193,7 +1264,7 @@ func runC09(c *Ctx) {
 						cs.Args = hexAll([]string{fr.Pick([]string{"-symbolize=none", "-nodecount=3", "-focus=main", "-tagfocus=1:", "-lines", "-sample_index=0", "-trim=false", "-call_tree"})})
 					}
 					cs.Lines = hexAll(lines)
-					cs.Text = fmt.Sprintf("interactive script %q args=%q%s <profile %s> env=%q", lines, unhexAll(cs.Args), baseText, describe(p), cs.Env)
+					cs.Text = fmt.Sprintf("interactive script %q args=%q%s%s <profile %s> env=%q", lines, unhexAll(cs.Args), baseText, remoteText, describe(p), cs.Env)
 				}
 				cs.Args = c09NoNUL(cs.Args)
 				work <- job{i, cs}
